@@ -1383,12 +1383,33 @@ namespace hs
         auto   mi   = std::size_t(mm < 0 ? -mm : mm) % S->markers.size();
         Marker M    = S->markers[mi];
         // everything younger than the marker is released by the unwind
+        // (a stack's traits-level deallocation only books the bytes out of the leak count; in half of the unwinds the
+        //  caller does that bookkeeping AFTER the unwind, when the memory may already lie in a cached block)
+        std::vector<Alloc> late;
+        if (S->o->caps.kind == K_STACK && S->o->caps.leak_tracked && (std::size_t(mm < 0 ? -mm : mm) / 5) % 2)
+            shadow_.for_each(
+                [&](Alloc& a)
+                {
+                    if (a.obj == idx && a.id > M.water && a.fam == TRAITS)
+                        late.push_back(a);
+                });
         shadow_.drop_if([&](const Alloc& a) { return a.obj == idx && a.id > M.water; });
         heap.begin_op(0);
         S->o->unwind(M.idx);
         auto rel = heap.op_releases();
         heap.end_op();
         after_sut_call("unwind");
+        for (auto& a : late)
+        {
+            Req r{TRAITS, a.array, a.count, a.size, a.align};
+            heap.begin_op(0);
+            S->o->deallocate(r, a.p);
+            heap.end_op();
+            S->leak_net -= (long long)a.bytes;
+            stats().hit("reach.stack_deallocation_booked_after_unwind");
+        }
+        if (!late.empty())
+            after_sut_call("traits-level deallocation after the unwind");
         hash_.add(0x71);
         hash_.add(mi);
         if (mi + 1 < S->markers.size())
